@@ -58,6 +58,7 @@ fn f_opt2<'a>(args: FunctionArgs<'_, 'a>) -> Option<LhsValue<'a>> {
     };
     let s = match args.next().expect("opt2 arg 2") {
         Ok(LhsValue::Bytes(b)) => b.to_vec(),
+        Err(_) => b"?".to_vec(),
         _ => panic!("opt2: arg 2"),
     };
     assert!(args.next().is_none(), "opt2: too many args");
